@@ -736,7 +736,11 @@ impl<'p, C: SimCfg> World<'p, C> {
                     expect.push(Ev::Resumed { addr: x });
                 }
                 if let MBody::SyncReply { random_reply } = m.body {
-                    if w.matches < 5 && !w.disconnected && sent.contains(&random_reply) && !w.matched.contains(&random_reply) {
+                    // a reply matches if its nonce was sent to this address more often than it has been matched
+                    // (the 32-bit nonces of one handshake can repeat: about once in 10^8 handshakes)
+                    let n_sent = sent.iter().filter(|x| **x == random_reply).count();
+                    let n_matched = w.matched.iter().filter(|x| **x == random_reply).count();
+                    if w.matches < 5 && !w.disconnected && n_sent > n_matched {
                         w.matched.push(random_reply);
                         w.matches += 1;
                         if w.matches < 5 {
